@@ -435,6 +435,28 @@ inline void build(program &P, const std::string &name) {
     b3.assign(x, E(znum(0)));           // dead (x is not an output)
     P.outputs = {z};
     P.cfg->set_func_decl(cfg_t::fdecl_t("deadcode", {a}, {z}));
+  } else if (name == "inplace") { // in-place updates (x := x + k, s := 2*s, x := ite(c, x, e)) after an earlier definition in the same block
+    var_t n = P.iv("n"), x = P.iv("x"), s = P.iv("s"), t = P.iv("t"), y = P.iv("y");
+    P.mk("i0", "i3");
+    auto &i0 = P.cfg->insert("i0");
+    auto &i1 = P.cfg->insert("i1");
+    auto &i2 = P.cfg->insert("i2");
+    auto &i3 = P.cfg->insert("i3");
+    i0 >> i1; i0 >> i2; i1 >> i3; i2 >> i3;
+    i0.assign(x, E(n) + E(P.K(0)));
+    i0.add(x, x, P.K(1));                 // in-place update: the definition above is live
+    i0.assign(s, E(n));
+    i0.mul(s, s, znum(2));
+    i0.assign(t, E(znum(3)));             // dead: overwritten below without being read
+    i0.assign(t, E(x));
+    i0.select(t, le(E(s), E(P.K(4))), E(t), E(znum(0)));
+    i1.assume(le(E(x), E(P.K(10))));
+    i1.assign(y, E(s) + E(t));
+    i2.assume(lt(E(P.consts[3].num()), E(x)));
+    i2.assign(y, E(znum(0)));
+    P.asrt(i3, le(E(y), E(P.K(40))));
+    P.outputs = {y};
+    P.cfg->set_func_decl(cfg_t::fdecl_t("inplace", {n}, {y}));
   } else if (name == "chain") { // single-successor chains, an unreachable block, a block that cannot reach the exit
     var_t a = P.iv("a"), x = P.iv("x"), y = P.iv("y");
     P.mk("c0", "c4");
